@@ -11,6 +11,7 @@ pub mod c08;
 pub mod c09;
 pub mod c11;
 pub mod c13;
+pub mod c14;
 pub mod c15;
 pub mod c16;
 pub mod c17;
@@ -45,6 +46,7 @@ pub fn checks(id: &str, tier: Tier) -> Option<Vec<Check>> {
         "C11" => Some(c11::checks(tier)),
         "C12" => Some(c12::checks(tier)),
         "C13" => Some(c13::checks(tier)),
+        "C14" => Some(c14::checks(tier)),
         "C15" => Some(c15::checks(tier)),
         "C16" => Some(c16::checks(tier)),
         "C17" => Some(c17::checks(tier)),
